@@ -7,7 +7,6 @@ package c15
 import (
 	"bytes"
 	"context"
-	"errors"
 	"fmt"
 	"math"
 	"os"
@@ -554,10 +553,6 @@ func checkEval(t ev.TB, test string, p evalPayload) {
 		return
 	}
 	want, werr := p.Expr.eval(env)
-	if errors.Is(werr, errZeroSign) {
-		ev.Discard("float arithmetic with a zero result (sign of zero is C01's)")
-		return
-	}
 	if werr != nil {
 		t.Fatalf("harness: cannot evaluate %q: %v", src, werr)
 		return
@@ -631,7 +626,7 @@ func TestEval(t *testing.T) {
 // ---------- (b) histories ----------
 
 func genHistValue(t *rapid.T) *GoSpec {
-	o := genOpts{small: true, noBuiltins: true}
+	o := genOpts{small: true} // builtin-function objects included: a clone must read "builtin-function:<name>" like the original (O2, repaired by bd9c161)
 	if rapid.IntRange(0, 7).Draw(t, "shaped") == 0 {
 		// shapes the in-place templates can write into: {k: {..}}, [[..], ..]
 		inner := genGoSpec(t, o, 1)
